@@ -84,9 +84,18 @@ func (e *Enc) call(ins ssa.Instruction, c *ssa.CallCommon, res *ssa.Call) {
 		}
 		return
 	}
+	var closureNames []string
 	if mc, ok := c.Value.(*ssa.MakeClosure); ok {
-		// closure call: bindings are passed implicitly; treat like a static call to the anonymous function
-		_ = mc
+		// closure call: the captured variables are passed implicitly; they are visible to the contract by name
+		if fn, ok := mc.Fn.(*ssa.Function); ok {
+			for i, fv := range fn.FreeVars {
+				if i < len(mc.Bindings) {
+					closureNames = append(closureNames, fv.Name())
+					args = append(args, e.val(mc.Bindings[i]))
+					argT = append(argT, mc.Bindings[i].Type())
+				}
+			}
+		}
 	}
 	name := e.w.Names[callee]
 	if name == "" {
@@ -110,6 +119,7 @@ func (e *Enc) call(ins ssa.Instruction, c *ssa.CallCommon, res *ssa.Call) {
 			for _, p := range callee.Params {
 				params = append(params, p.Name())
 			}
+			params = append(params, closureNames...)
 			e.applyContract(ins, ct, callee, sig, params, args, argT, res, name, e.w.ModSet[callee])
 			return
 		}
@@ -397,6 +407,40 @@ func (e *Enc) funcValueCall(ins ssa.Instruction, c *ssa.CallCommon, res *ssa.Cal
 	if ct.Pure {
 		wr = map[string]bool{}
 	}
+	if ts, ok := e.w.sigTargetsOf(c); ok {
+		// closed-world function type: effects are the union over every library function used as such a value
+		h := e.cur
+		pre := h.clone()
+		envPre := e.callEnv(nil, sig, params, args, argT, pre, pre, nil)
+		envPre.owner = "call through " + ct.Func
+		for i, r := range ct.Requires {
+			if t, ok := e.evalClause(ct, r, envPre); ok {
+				e.oblige("pre", fmt.Sprintf("%s.%d", shortCallee(ct.Func), i), "", ins.Pos(), e.guardGoal(t))
+			}
+		}
+		apre := e.allocCounter(h)
+		e.havocKey(h, "$A")
+		union := map[string]bool{}
+		for _, t := range ts {
+			for k := range e.w.ModSet[t] {
+				union[k] = true
+			}
+		}
+		e.havocUnionAt(h, union, ts, args, apre)
+		rs := e.freshResults(sig, h)
+		for _, r := range rs {
+			e.assert(e.refOld(r, h))
+		}
+		envPost := e.callEnv(nil, sig, params, args, argT, pre, h, rs)
+		for _, en := range ct.Ensures {
+			if t, ok := e.evalClause(ct, en.Expr, envPost); ok {
+				e.assert(implies(e.reach[e.curBlock], t))
+			}
+		}
+		e.setResult(res, rs)
+		e.trustedUsed["indirect calls through "+ct.Func+" values: closed-world function type (mentions an unexported library type); effects are the union over the library functions used as such values, each checked against the family contract"] = true
+		return true
+	}
 	e.trustedUsed["indirect calls through "+ct.Func+" values are checked against the family contract; library functions used as such values are checked to require no more (sigcheck)"] = true
 	e.applyContract(ins, ct, nil, sig, params, args, argT, res, "sig "+ct.Func, wr)
 	return true
@@ -683,4 +727,62 @@ func (e *Enc) lockExit(r *ssa.Return) {
 		return
 	}
 	e.oblige("lock", "released-at-exit", "", r.Pos(), e.guardGoal(app("=", e.heapGet(e.cur, "$lock", "Int"), e.heapGet(e.entryHeap, "$lock", "Int"))))
+}
+
+// havocUnionAt: like havocCallWritesAt for a set of possible callees.
+func (e *Enc) havocUnionAt(h *Heap, writes map[string]bool, callees []*ssa.Function, args []Val, apre string) {
+	if writes["*"] {
+		e.havocAll(h)
+		return
+	}
+	var keys []string
+	for k := range writes {
+		keys = append(keys, k)
+	}
+	sort.Strings(keys)
+	for _, k := range keys {
+		other := false
+		pset := map[int]bool{}
+		for _, c := range callees {
+			if wc := e.w.WE[c][k]; wc != nil {
+				if wc.other {
+					other = true
+				}
+				for i := range wc.params {
+					pset[i] = true
+				}
+			}
+		}
+		if ghostPlain(k) || k == "map" || other {
+			e.havocKey(h, k)
+			continue
+		}
+		var except []string
+		bad := false
+		for i := range pset {
+			if i >= len(args) {
+				bad = true
+				break
+			}
+			switch args[i].S {
+			case "Slice":
+				except = append(except, e.rootOf(app("sarr", args[i].T)))
+			case "Ref":
+				except = append(except, e.rootOf(args[i].T))
+			default:
+				bad = true
+			}
+		}
+		if bad {
+			e.havocKey(h, k)
+			continue
+		}
+		if _, known := e.heapSort[k]; !known {
+			if srt, ok := e.w.keySort(e, k); ok {
+				e.heapGet(h, k, srt)
+			}
+		}
+		sort.Strings(except)
+		e.havocKeyFramed(h, k, apre, except)
+	}
 }
